@@ -46,6 +46,7 @@ def check_chain(case, ev):
     pwd, ip, words, asn = case["features"]
     words = words and bool(case["words"])
     asn = asn and bool(case["asns"])
+    orig = case
     if case.get("pad"):
         # the first line made longer than 64 KiB by one long token in front of it (kept out of the case
         # itself so that replay files stay small); a multiple of 65536 falls inside its original text
@@ -53,7 +54,7 @@ def check_chain(case, ev):
     text = "".join(l + "\n" for l in case["lines"])
     multi, exc = guarded(lambda: core.run_io(FileAnonymizer(**_kw(case, pwd, ip, words, asn)), text))
     if exc is not None:
-        return core.exc_finding(exc, case, "multi/")
+        return core.exc_finding(exc, orig, "multi/")
     cfg = case["cfg"]
     undo_ = bool(case["undo"]) and ip
     if case.get("cli") and (pwd or ip or words or asn) and cfg["B4"] == cfg["B6"] and cfg["prefixes"] != [] and cfg["salt"] and not cfg["salt"].startswith("-") and "\x00" not in cfg["salt"] and "\r" not in text:  # (a bare CR is a line end for a file opened in text mode, not for an in-memory stream)
@@ -73,14 +74,14 @@ def check_chain(case, ev):
             argv += (["-r", ",".join(case["reserved"])] if case["reserved"] else []) + (["--preserve-prefixes", ",".join(cfg["prefixes"])] if cfg["prefixes"] else []) + (["--preserve-addresses", ",".join(cfg["networks"])] if cfg.get("networks") else [])
             _, exc = guarded(main, argv)
             if exc is not None:
-                return core.exc_finding(exc, case, "main/")
+                return core.exc_finding(exc, orig, "main/")
             got = open(os.path.join(d, "out.cfg"), encoding="utf-8", newline="").read() if os.path.exists(os.path.join(d, "out.cfg")) else None
         finally:
             shutil.rmtree(d, ignore_errors=True)
         if got != multi:
             gl, ml_ = (got or "").split("\n"), multi.split("\n")
             i = next((i for i, (a, b) in enumerate(zip(gl, ml_)) if a != b), 0)
-            return Finding("chain/command-line-differs-from-library:%s" % "".join("pinw"[i_] if f else "-" for i_, f in enumerate((pwd, ip, asn, words))) + (":undo" if undo_ else ""), "argv %r, line %r: command line %r, FileAnonymizer %r" % (argv[4:], case["lines"][i] if i < len(case["lines"]) else None, gl[i] if i < len(gl) else None, ml_[i] if i < len(ml_) else None), case)
+            return Finding("chain/command-line-differs-from-library:%s" % "".join("pinw"[i_] if f else "-" for i_, f in enumerate((pwd, ip, asn, words))) + (":undo" if undo_ else ""), "argv %r, line %r: command line %r, FileAnonymizer %r" % (argv[4:], case["lines"][i] if i < len(case["lines"]) else None, gl[i] if i < len(gl) else None, ml_[i] if i < len(ml_) else None), orig)
     cur = text
     stages = []
     changed_by = [0] * len(case["lines"])
@@ -92,20 +93,20 @@ def check_chain(case, ev):
             # (IPv6 first, then IPv4, as the stream routine applies them)
             a46, exc = guarded(lambda: (G.mk4(case["cfg"]), G.mk6(case["cfg"])))
             if exc is not None:
-                return core.exc_finding(exc, case, "single/")
+                return core.exc_finding(exc, orig, "single/")
             undo = bool(case["undo"])
             nxt = "".join(anonymize_ip_addr(a46[0], anonymize_ip_addr(a46[1], l, undo), undo) for l in cur.splitlines(True))
         else:
             nxt, exc = guarded(lambda: core.run_io(FileAnonymizer(**_kw(case, *kw)), cur))
             if exc is not None:
-                return core.exc_finding(exc, case, "single/")
+                return core.exc_finding(exc, orig, "single/")
         for i, (a, b) in enumerate(zip(cur.split("\n"), nxt.split("\n"))):
             if a != b and i < len(changed_by):
                 changed_by[i] += 1
         stages.append(name)
         cur = nxt
     nfeat = sum(1 for x in (pwd, ip, words, asn) if x)
-    ev.case(case, nfeat >= 2 and any(c >= 2 for c in changed_by), ["features-" + "".join("pinw"[i] if f else "-" for i, f in enumerate((pwd, ip, asn, words))), "undo" if case["undo"] and ip else "anonymize"] + (["split-ip"] if case.get("split_ip") else []) + (["also-command-line"] if case.get("cli") else []))
+    ev.case(orig, nfeat >= 2 and any(c >= 2 for c in changed_by), ["features-" + "".join("pinw"[i] if f else "-" for i, f in enumerate((pwd, ip, asn, words))), "undo" if case["undo"] and ip else "anonymize"] + (["split-ip"] if case.get("split_ip") else []) + (["also-command-line"] if case.get("cli") else []))
     if multi != cur:
         ml, cl = multi.split("\n"), cur.split("\n")
         i = next((i for i, (a, b) in enumerate(zip(ml, cl)) if a != b), 0)
